@@ -121,6 +121,8 @@ struct EfProbe : pgm::EliasFanoPGMIndex<K, Eps, Floating> {
     using B::B;
     size_t wl() const { return this->ef.wl; }
     size_t ef_size() const { return this->ef.size(); }
+    size_t high_bits() const { return this->ef.high.size(); }
+    size_t high_zeros() const { return this->ef.high.size() - this->ef.low.size(); }
 };
 
 struct EfExtra : NoExtra {
